@@ -615,10 +615,10 @@ Definition build_assignment (t : table) (existing : option assignment) (import :
       if import && existsb sets_nexthop v then None
       else
         match existing with
-        | None => Some {| as_disp := d; as_pols := v |}
+        | None => Some {| as_disp := d; as_pols := v; as_needs_rpki := compute_needs_rpki v |}
         | Some old =>
             if existsb (fun p0 => existsb (fun p1 => p_name p0 =? p_name p1) v) (as_pols old) then None
-            else Some {| as_disp := d; as_pols := v ++ as_pols old |}
+            else Some {| as_disp := d; as_pols := v ++ as_pols old; as_needs_rpki := compute_needs_rpki (v ++ as_pols old) |}
         end
   end.
 
@@ -632,6 +632,11 @@ Definition add_assignment (t : table) (set : bool) (import : bool) (d : disp) (n
   | Some a => (with_asg t import (Some a), OK)
   end.
 
+(* PolicyAssignment::without_policies: the flag is recomputed *)
+Definition without_policies (old : assignment) (names : list N) : assignment :=
+  let ps := filter (fun p => negb (existsb (N.eqb (p_name p)) names)) (as_pols old) in
+  {| as_disp := as_disp old; as_pols := ps; as_needs_rpki := compute_needs_rpki ps |}.
+
 (* delete_policy_assignment *)
 Definition delete_assignment (t : table) (import : bool) (names : list N) (all : bool) : table * N :=
   if all then (with_asg t import None, OK)
@@ -640,8 +645,7 @@ Definition delete_assignment (t : table) (import : bool) (names : list N) (all :
     | None => (t, NOTFOUND)
     | Some old =>
         (with_asg t import
-           (Some {| as_disp := as_disp old;
-                    as_pols := filter (fun p => negb (existsb (N.eqb (p_name p)) names)) (as_pols old) |}), OK)
+           (Some (without_policies old names)), OK)
     end.
 
 (* ------------------------------------------------------------------ *)
@@ -754,7 +758,8 @@ Section Run.
 
   Definition v_asg (a : option assignment) : val :=
     VOpt (fun a => VL [VN (disp_code (as_disp a));
-                       VList (fun p => VL [VN (p_name p); VN 1]) (as_pols a)]) a.
+                       VList (fun p => VL [VN (p_name p); VN 1]) (as_pols a);
+                       VB (as_needs_rpki a)]) a.
 
   Definition dump (t : table) : val :=
     VL [VList (fun e => VL [VN (fst (fst e)); VN (snd (fst e)); v_setv (snd e)]) (t_sets t);
